@@ -84,8 +84,12 @@ theorem C16_facts_shell :
   decide
 
 /-- `CurlJob.Execute`: previous body closed before `Do`, response and status written under the same lock,
-request bound to the execution context, one callback call -/
+request bound to the execution context, one callback call.  The critical section is the helper `do`, run by the one statement
+`err := cu.do(ctx)` of `Execute`; it starts with `cu.mtx.Lock(); defer cu.mtx.Unlock()` (so that a panicking `HTTPHandler` or
+`Body.Close()` cannot leave the job's mutex locked); `Execute` returns `do`'s error after the callback. -/
 theorem C16_facts_curl :
+    Generated.Jobs.curlHelperCall = "err := cu.do(ctx)" ∧ Generated.Jobs.curlUnlockDeferred = true ∧
+    Generated.Jobs.curlExecuteReturn = "return err" ∧
     Generated.Jobs.curlLoName = "http.StatusOK" ∧ Generated.Jobs.curlHiName = "http.StatusBadRequest" ∧
     Generated.Jobs.curlWithContext = "cu.request = cu.request.WithContext(ctx)" ∧
     Generated.Jobs.curlCloseGuard = ["cu.response != nil", "cu.response.Body != nil"] ∧
